@@ -28,7 +28,7 @@ def build(tier, seed):
                 'generator}; non-trivial = word not identically zero' % (L, list(DTS)),
         'bounds': {'alphabet': SIGMA, 'max_len': L, 'dt': DTS, 'trap': [True, False]},
         'required_classes': ['trap', 'rect', 'const-acc', 'linear-acc', 'neg-peak-dominant', 'pos-peak-dominant',
-                             'prefix-edge', 'int-input'],
+                             'prefix-edge', 'int-input', 'object-reused'],
         'assumptions': ['sample values outside {-2..2} and lengths above the bound are not examined',
                         'dt only on the menu', 'reference: exact rational cumulative sums (fractions.Fraction)'],
     }
@@ -168,6 +168,20 @@ def run_case(w):
             ok, out = r.call('peaks', s2, peaks)
             if ok:
                 r.expect_close('peaks.object', s2, out, np.array(want) * abs(scale), rtol=1e-9, atol=1e-300)
+            # the same object after its record has been replaced: read one peak, replace the values by scale*w, read all peaks
+            if scale != 1.0:
+                for first_read in ('pga', 'pgv', 'pgd'):
+                    s3 = dict(sub, scale=scale, first_read=first_read)
+
+                    def reuse():
+                        s = eqsig.AccSignal(np.array(w, dtype=float), dt)
+                        getattr(s, first_read)
+                        s.reset_values(np.array(w, dtype=float) * scale)
+                        return s.pga, s.pgv, s.pgd
+                    ok, out = r.call('peaks', s3, reuse)
+                    if ok:
+                        r.cls('object-reused')
+                        r.expect_close('peaks.object-after-reset_values', s3, out, np.array(want) * abs(scale), rtol=1e-9, atol=1e-300)
             for nm, ser in (('a', [Fraction(x) for x in w]), ('v', vref), ('d', dref)):
                 arr = fl(ser) * scale
                 if len(arr) == 0:
